@@ -249,8 +249,12 @@ class C06Signals(Machine):
                 return {"op": "with_times", "i": i, "rel": [3 * n, n], "mode": mode}
             return {"op": "with_times", "i": i, "rel": [0, n], "mode": mode}
         if k == "add":
-            return {"op": "add", "i": i, "j": rng.randrange(len(self.subjects)),
-                    "with_new": self._rand_fn(rng) if rng.chance(0.5) else None}
+            op = {"op": "add", "i": i, "j": rng.randrange(len(self.subjects)),
+                  "with_new": self._rand_fn(rng) if rng.chance(0.5) else None}
+            if op["with_new"] is not None and rng.chance(0.5):
+                # the new operand went through its own filter before the addition
+                op["new_filter"] = {"resp": self._rand_resp(rng), "force_real": rng.chance(0.6)}
+            return op
         if k == "copy":
             return {"op": "copy", "i": i}
         if k == "aug_times":
@@ -472,6 +476,13 @@ class C06Signals(Machine):
                 other_defs = [{"op": "new", "kind": "plain", "fn": op["with_new"], "rs": op["rs"]}]
                 fn = make_function(op["with_new"])
                 d["other_model"] = EagerModel(self._grid(), [Comp(fn)])
+                nf = op.get("new_filter")
+                if nf is not None:
+                    other_defs.append({"op": "filter", "i": -1, "resp": nf["resp"],
+                                       "force_real": nf["force_real"], "rs": op["rs"]})
+                    d["other_model"].comps[0].filters.append((make_response(nf["resp"]), nf["force_real"]))
+                    if subj.model is not None and any(c.filters for c in subj.model.comps):
+                        self.count("probe.add_of_separately_filtered")
             else:
                 if op["j"] >= len(self.subjects):
                     raise Skip("no such operand")
@@ -868,6 +879,9 @@ class C06Tracers(Machine):
             pa = {"from_point": list(self.attrs["from_point"]), "to_point": list(self.attrs["to_point"]),
                   "ice": self.attrs["ice"], "theta0": float(p.theta0)}
             if kind == "uniform":
+                # the one defining attribute of a uniform-ice path that has no public name
+                if not hasattr(p, "_reflections"):
+                    raise Skip("cannot tell which image solution this path is")
                 pa["reflections"] = int(p._reflections)
             else:
                 pa["dz"] = self.attrs["dz"]
